@@ -222,7 +222,8 @@ PENDING = {
 
 def main():
     props = [json.loads(l)["id"] for l in open(os.path.join(VERIF, "properties.jsonl"))]
-    hooks_commit = subprocess.run(["git", "-C", "/repo", "log", "--format=%h", "--grep=guarded verification hooks"],
+    # every commit that touches the guarded hooks (their subject names the guard; none of them starts with "fix:")
+    hooks_commit = subprocess.run(["git", "-C", "/repo", "log", "--reverse", "--format=%h", "--grep=SQFVM_RUNTIME_VERIF"],
                                   stdout=subprocess.PIPE, text=True).stdout.split()
     checks = []
     for pid in props:
